@@ -28,7 +28,7 @@ def shards(tier):
 
 
 def required_classes(tier):
-    out = ["W4:GF(p)", "W4:GF(p^2)", "W4:GF(2^12)", "int-operand", "div-by-zero", "pow:>=750bit", "laws"]
+    out = ["interleaved-configurations", "W4:GF(p)", "W4:GF(p^2)", "W4:GF(2^12)", "int-operand", "div-by-zero", "pow:>=750bit", "laws"]
     for impl in ("ref", "opt"):
         for d in (1, 2, 12):
             out.append("real:%s:deg%d" % (impl, d))
@@ -210,6 +210,7 @@ def run(rec):
                 exercise(rec, (impl, "GF(%d^2)/%r" % (p, mc), 2), cls, F, rng, quick, exhaustive_pairs=True, els=els, heavy=False)
                 rec.classes["W4:GF(p^2)"] += len(els) ** 2
                 rec.exhaustive_space("%s FQ2 over GF(%d), modulus x^2+%dx+%d: all elements, all ordered pairs" % (impl, p, mc[1], mc[0]), len(els) ** 2)
+    interleaved_configurations(rec, rng, quick)
     # degree-12 extensions of GF(2), GF(3), GF(5), GF(7)
     mrng = random.Random(rec.seed * 7919 + 12)
     for p in (2, 3, 5, 7):
@@ -247,6 +248,43 @@ def run(rec):
                     rec.count_distinct(n)
                     rec.exhaustive_space("opt FQ12 over GF(3), modulus %r: inverse of every non-zero element (inv monitor)" % (mc,), n)
                 exercise(rec, (impl, "GF(%d^12)#%d" % (p, mi), 12), cls, F, rng, quick, heavy=True)
+
+
+def interleaved_configurations(rec, rng, quick):
+    """Several field configurations alive at once and used alternately: same prime with different moduli, same modulus
+    with different primes, ad-hoc classes next to the shipped ones.  Every operation is judged by the field monitors,
+    so state shared between configurations (a cache keyed too coarsely, a class attribute set by the last constructor)
+    shows as a wrong result in one of them."""
+    import py_ecc.fields as pf
+    groups = []
+    for p in (5, 7, 11, 13):
+        qs = G.irreducible_quadratics(p)
+        groups.append([(p, qs[0]), (p, qs[-1]), (p, qs[len(qs) // 2])])
+    groups.append([(7, (1, 0)), (11, (1, 0)), (19, (1, 0)), (23, (1, 0))])                    # one modulus, several primes (x^2 + 1 is irreducible for p = 3 mod 4)
+    m12 = random.Random(4242)
+    groups.append([(3, find_irreducible(3, 12, m12)), (3, find_irreducible(3, 12, m12)), (5, find_irreducible(5, 12, m12))])
+    for gi, grp in enumerate(groups):
+        for impl in ("opt", "ref"):
+            live = []
+            for (p, mc) in grp:
+                cls, F = G.adhoc_class(impl, p, mc, tag="_il%d" % gi)
+                live.append((cls, F, [G.make(cls, F.rand(rng)) for _ in range(3)]))
+            if gi == 4:
+                shipped = getattr(pf, ("optimized_" if impl == "opt" else "") + "bn128_FQ2")
+                live.append((shipped, None, [shipped([rng.randrange(shipped.field_modulus) for _ in range(2)]) for _ in range(3)]))
+            for step in range(12 if quick else 60):
+                cls, F, xs = live[step % len(live)]
+                a, b = xs[step % 3], xs[(step + 1) % 3]
+                rec.case("interleaved-configurations", None, nontrivial=False)
+                call(lambda: a * b)
+                call(lambda: a / b)
+                call(lambda: (a - b) ** (step + 2))
+                if hasattr(a, "inv"):
+                    call(a.inv)
+                # creating another instance of a sibling configuration in between must not matter
+                other = live[(step + 1) % len(live)]
+                call(lambda: type(other[2][0])(list(other[2][0].coeffs)) if hasattr(other[2][0], "coeffs") else type(other[2][0])(1))
+                call(lambda: a * b + a)
 
 
 def replay(rec, case):
